@@ -218,3 +218,23 @@ Theorem C01_src_block_job_reports_failure :
   x_block_job_arms = [("Ok(0)ifoff+done>=harc.metadata.len()", 0); ("Ok(0)", 1); ("Ok(copied)", 2); ("Err(e)", 1)]%string%N.
 Proof. exact x_block_job_arms_ok. Qed.
 Print Assumptions C01_src_block_job_reports_failure.
+
+(* ---- more glue on this property's path, pinned token for token ---- *)
+From XcpPins Require Import Pin_operations_copy_file Pin_parblock_queue_file_blocks Pin_operations_new.
+Theorem C01_src_pin_operations_copy_file : pin_unchanged name_operations_copy_file.
+Proof. exact pin_operations_copy_file. Qed.
+Theorem C01_src_pin_parblock_queue_file_blocks : pin_unchanged name_parblock_queue_file_blocks.
+Proof. exact pin_parblock_queue_file_blocks. Qed.
+Theorem C01_src_pin_operations_new : pin_unchanged name_operations_new.
+Proof. exact pin_operations_new. Qed.
+Print Assumptions C01_src_pin_operations_copy_file.
+Print Assumptions C01_src_pin_parblock_queue_file_blocks.
+Print Assumptions C01_src_pin_operations_new.
+
+(* ---- libfs::map_extents, translated: EVERY extent the kernel reports becomes a range to copy (none is filtered by its
+   flags) — parblock copies exactly the merged ranges of a sparse-looking file ---- *)
+From XcpModel Require Import Sparse.
+From XcpProofs Require Import XExtents.
+Theorem C01_src_map_extents_loop : forall fuel fiemap, x_map_extents fuel fiemap = map_extents fuel fiemap.
+Proof. exact x_map_extents_ok. Qed.
+Print Assumptions C01_src_map_extents_loop.
